@@ -64,7 +64,7 @@ Fixpoint insert_after (c : N) (ts : list tk) : list tk :=
       else t :: insert_after c rest
   end.
 
-(* find_rhs_index: position of the first top-level token whose text is "~" (kind NOT checked, as in the code) *)
+(* find_rhs_index: position of the first top-level OPERATOR token whose text is "~" *)
 Definition opener_of (c : str) : option str :=
   if leqb c [cRP] then Some [cLP] else if leqb c [cRS] then Some [cLS] else None.
 Fixpoint find_rhs (ts : list tk) (ctx : list str) (i : nat) : option nat :=
@@ -79,7 +79,7 @@ Fixpoint find_rhs (ts : list tk) (ctx : list str) (i : nat) : option nat :=
              end
       else match ctx with
            | _ :: _ => find_rhs rest ctx (S i)
-           | [] => if leqb (tx t) [cTILDE] then Some i else find_rhs rest ctx (S i)
+           | [] => if is_op t && leqb (tx t) [cTILDE] then Some i else find_rhs rest ctx (S i)
            end
   end.
 
